@@ -9,6 +9,7 @@ import (
 	"encoding/json"
 	"flag"
 	"fmt"
+	"math/big"
 	"math/rand"
 	"os"
 	"strings"
@@ -16,6 +17,9 @@ import (
 	ethcmn "github.com/ethereum/go-ethereum/common"
 	ethcrypto "github.com/ethereum/go-ethereum/crypto"
 
+	"github.com/Oneledger/protocol/action"
+	acteth "github.com/Oneledger/protocol/action/eth"
+	ethchain "github.com/Oneledger/protocol/chains/ethereum"
 	"github.com/Oneledger/protocol/data/keys"
 )
 
@@ -224,6 +228,72 @@ func c05Main(args []string) int {
 				l.Rep.Commit()
 			}
 			l.Rep.Close()
+			rep.Kinds = append(rep.Kinds, kr)
+		}
+	}
+	// Ethereum lock / redeem life cycles: the executed transaction is protected by its tracker record
+	// (ongoing, then passed / failed store) for ever — also after the tracker was cleaned up
+	if *only == "" || strings.HasPrefix(*only, "ETH") {
+		for _, flow := range []string{"ETH_LOCK_LIFECYCLE", "ETH_REDEEM_LIFECYCLE", "ETH_LOCK_ONGOING"} {
+			w := c15NewWorld(c15Cfg{NWit: 4, Cap: 1000000, Seed: 1, FlagFrom: -1, ERC: true, Init: 1000, TTCInit: 1000})
+			GAS = 1000000
+			u := w.idKey[1]
+			var base, ethTx []byte
+			if flow == "ETH_REDEEM_LIFECYCLE" {
+				ethTx = c15RedeemBytes(big.NewInt(3), 7)
+				base = mkTx(action.ETH_REDEEM, acteth.Redeem{Owner: u.Addr, To: ethcmn.BytesToAddress(u.Addr), ETHTxn: ethTx}, GAS, "c05eth", u)
+			} else {
+				ethTx = c15LockBytes(big.NewInt(5), c15Contract, c15LockData, 7, c15S(7))
+				base = mkTx(action.ETH_LOCK, acteth.Lock{Locker: u.Addr, ETHTxn: ethTx}, GAS, "c05eth", u)
+			}
+			kr := c05Kind{Kind: flow, Base: hx(base)}
+			in := &BlockIn{Absent: map[int]bool{}}
+			w.rep.BeginBlock(in)
+			v0 := w.rep.View()
+			res := w.rep.DeliverTx(base)
+			kr.BaseCode = res.Code
+			kr.BaseEffect = len(diffKeys(v0, w.rep.View())) > 0
+			w.rep.EndBlock()
+			w.rep.Commit()
+			if res.Code == 0 {
+				w.rep.RunBlock(in)
+				if flow != "ETH_LOCK_ONGOING" {
+					var tn ethchain.TrackerName
+					tn.SetBytes(ethcmn.BytesToHash(ethTx).Bytes())
+					for i := 0; i < 3; i++ { // 3 of 4 witnesses: floor(2*4/3)+1
+						k := w.idKey[20+i]
+						m := &acteth.ReportFinality{TrackerName: tn, Locker: u.Addr, ValidatorAddress: k.Addr, VoteIndex: int64(i), Success: true}
+						r := w.rep.RunBlock(&BlockIn{Txs: [][]byte{mkTx(action.ETH_REPORT_FINALITY_MINT, m, GAS, fmt.Sprintf("c05rep%d", i), k)}, Absent: map[int]bool{}})
+						if len(r.Txs) != 1 || r.Txs[0].Code != 0 {
+							panic("c05: finality report refused: " + r.Txs[0].Log)
+						}
+					}
+					for i := 0; i < 4; i++ { // mint / burn, cleanup
+						w.rep.RunBlock(in)
+					}
+					if len(w.observe(true).Ongoing) != 0 {
+						panic("c05: the tracker of the " + flow + " flow was not archived")
+					}
+				}
+				subs := append([]labMutant{{"identical", "same", base}}, reencodings(base, r)...)
+				w.rep.BeginBlock(in)
+				for _, sb := range subs {
+					c := w.rep.CheckTx(sb.Tx)
+					va := w.rep.View()
+					d := w.rep.DeliverTx(sb.Tx)
+					ch := diffKeys(va, w.rep.View())
+					sr := c05Sub{Name: sb.Name, SameParsed: sameParsed(sb.Tx, base), CheckCode: c.Code, CheckDup: strings.Contains(c.Log, "duplicated tx"),
+						Deliver: d.Code, Effect: len(ch) > 0, Tx: hx(sb.Tx)}
+					if len(ch) > 6 {
+						ch = ch[:6]
+					}
+					sr.Changed = ch
+					kr.Subs = append(kr.Subs, sr)
+				}
+				w.rep.EndBlock()
+				w.rep.Commit()
+			}
+			func() { defer func() { recover() }(); w.rep.Close() }()
 			rep.Kinds = append(rep.Kinds, kr)
 		}
 	}
